@@ -192,10 +192,10 @@ package etcd
 
 // ---- C16: how the shim shapes backend answers into etcd answers ----
 //@ func txnHeader(rev) (result)
-//@   props C16
+//@   props C16 C20
 //@   ensures [header] result != nil && fresh(result) && result.Revision == rev
 //@ func kvToEtcdKv(kv) (result)
-//@   props C16
+//@   props C16 C20
 //@   ensures [nil] kv == nil ==> result == nil
 //@   ensures [fields] kv != nil ==> result != nil && fresh(result) && result.Key == kv.Key && result.Value == kv.Value && result.ModRevision == int64(kv.Revision)
 
@@ -204,7 +204,7 @@ package etcd
 // carries the current key-value (if there is one); header and success flag are the backend's
 //@ pred one_range_with(op, kv) = typeis(op.Response, "*etcdserverpb.ResponseOp_ResponseRange") && asptr(op.Response, "*etcdserverpb.ResponseOp_ResponseRange") != nil && asptr(op.Response, "*etcdserverpb.ResponseOp_ResponseRange").ResponseRange != nil && len(asptr(op.Response, "*etcdserverpb.ResponseOp_ResponseRange").ResponseRange.Kvs) == ite(kv != nil, 1, 0) && (kv != nil ==> asptr(op.Response, "*etcdserverpb.ResponseOp_ResponseRange").ResponseRange.Kvs[0] != nil && asptr(op.Response, "*etcdserverpb.ResponseOp_ResponseRange").ResponseRange.Kvs[0].Key == kv.Key && asptr(op.Response, "*etcdserverpb.ResponseOp_ResponseRange").ResponseRange.Kvs[0].Value == kv.Value && asptr(op.Response, "*etcdserverpb.ResponseOp_ResponseRange").ResponseRange.Kvs[0].ModRevision == int64(kv.Revision))
 //@ func (*backendShim).Update(ctx, rev, key, value, lease) (resp, err)
-//@   props C16
+//@   props C16 C20
 //@   requires b != nil && b.backend != nil && leader_checked
 //@   modifies ghost.backend_writes ghost.be_op ghost.be_req ghost.be_resp ghost.be_err
 //@   let Q = asref(be_req, "*proto.UpdateRequest")
@@ -216,7 +216,7 @@ package etcd
 //@   ensures [failure-carries-the-current-key-value] err == nil && !R.Succeeded ==> one_range_with(resp.Responses[0], R.Kv)
 
 //@ func (*backendShim).Delete(ctx, key, revision) (resp, err)
-//@   props C16
+//@   props C16 C20
 //@   requires b != nil && b.backend != nil && leader_checked
 //@   modifies ghost.backend_writes ghost.be_op ghost.be_req ghost.be_resp ghost.be_err
 //@   let Q = asref(be_req, "*proto.DeleteRequest")
@@ -227,7 +227,7 @@ package etcd
 //@   ensures [answer-carries-the-key-value-the-backend-returned] err == nil ==> one_range_with(resp.Responses[0], R.Kv)
 
 //@ func (*backendShim).Get(ctx, r) (resp, err)
-//@   props C16
+//@   props C16 C20
 //@   requires b != nil && b.backend != nil && r != nil && synced
 //@   modifies ghost.backend_reads ghost.be_op ghost.be_req ghost.be_resp ghost.be_err
 //@   let Q = asref(be_req, "*proto.GetRequest")
@@ -252,7 +252,7 @@ package etcd
 //@   ensures [header-more-count] err == nil ==> resp != nil && resp.Header != nil && resp.Header.Revision == int64(R.Header.Revision) && resp.More == R.More && resp.Count == ite(R.More, len(R.Kvs)+1, len(R.Kvs))
 
 //@ func (*backendShim).Count(ctx, r) (resp, err)
-//@   props C16
+//@   props C16 C20
 //@   requires b != nil && b.backend != nil && r != nil && synced
 //@   modifies ghost.backend_reads ghost.be_op ghost.be_req ghost.be_resp ghost.be_err
 //@   let Q = asref(be_req, "*proto.CountRequest")
